@@ -42,4 +42,54 @@ __CPROVER_ensures(RET != NULL ==> heap->data[(heap->wr + heap->size - 1) % heap-
 __CPROVER_ensures((RET != NULL && gh_w < heap->size && ((gh_w + heap->size - OLD(heap->wr)) % heap->size) >= OLD(heap->count) - heap->count)
     ==> heap->data[gh_w] == OLD(heap->data[gh_w < heap->size ? gh_w : 0]))
 ;
+
+/* ---- release ----------------------------------------------------------------------------------
+ * s points into the heap.  The ring always contains at least one NUL (every stored text ends in one, free bytes are NUL):
+ * witness gh_nulp.  Nothing is assumed about WHICH bytes are allocated, so what is decided here is: no access outside
+ * the ring for any content, exactly the bytes of the text at s (up to and including its terminator, following the
+ * wrap-around) become NUL and are accounted, nothing else changes.  That count never exceeds size and wr stays inside
+ * the ring along real histories is decided by hist.heap.* (bounded). */
+#define H_IN(h, s) __CPROVER_pointer_in_range_dfcc((h)->data, (s), (h)->data + ((h)->size - 1))
+#define H_HASNUL(h) (__CPROVER_pointer_in_range_dfcc((h)->data, gh_nulp, (h)->data + ((h)->size - 1)) && *gh_nulp == 0)
+#define H_NULOFF(h) ((size_t) (OFF(gh_nulp) - OFF((h)->data)))
+/* the same as a plain predicate (guards in postconditions; pointer_in_range_dfcc may not appear under an implication there) */
+#define H_INX(h, p) (__CPROVER_same_object((p), (h)->data) && OFF(p) >= OFF((h)->data) && (size_t) (OFF(p) - OFF((h)->data)) < (h)->size)
+#define H_WOFF(h) ((size_t) (OFF(gh_wp) - OFF((h)->data)))
+#define H_SOFF(h, s) ((size_t) (OFF(s) - OFF((h)->data)))
+scpi_bool_t scpiheap_get_parts(scpi_error_info_heap_t * heap, const char * s, size_t * len1, const char ** s2, size_t * len2)
+__CPROVER_requires(HPRE(heap) && H_HASNUL(heap) && (s == NULL || H_IN(heap, s)))
+__CPROVER_requires(__CPROVER_is_fresh(len1, sizeof(*len1)) && __CPROVER_is_fresh(s2, sizeof(*s2)) && __CPROVER_is_fresh(len2, sizeof(*len2)))
+__CPROVER_assigns(*len1, *s2, *len2)
+__CPROVER_ensures(RET == (s != NULL && s[0] != 0))
+/* first part: from s to its NUL or to the end of the ring, never empty */
+__CPROVER_ensures(RET ==> (*len1 >= 1 && *len1 <= heap->size - H_SOFF(heap, s)))
+__CPROVER_ensures((RET && H_INX(heap, gh_wp) && H_WOFF(heap) >= H_SOFF(heap, s) && H_WOFF(heap) - H_SOFF(heap, s) < *len1) ==> *gh_wp != 0)
+__CPROVER_ensures((RET && *len1 < heap->size - H_SOFF(heap, s)) ==> (s[*len1] == 0 && *s2 == NULL && *len2 == 0))
+/* second part: only when the first one runs to the last byte of the ring; it ends at the first NUL from the start,
+ * which lies before s because the ring contains a NUL */
+__CPROVER_ensures((RET && *len1 == heap->size - H_SOFF(heap, s)) ==> (__CPROVER_pointer_in_range_dfcc(heap->data, *s2, heap->data) && *len2 < heap->size && *len2 <= H_NULOFF(heap) && H_NULOFF(heap) < H_SOFF(heap, s) && heap->data[*len2] == 0))
+__CPROVER_ensures((RET && *len1 == heap->size - H_SOFF(heap, s) && H_INX(heap, gh_wp) && H_WOFF(heap) < *len2) ==> *gh_wp != 0)
+;
+#define H_FREED (heap->count - OLD(heap->count))
+#define H_CYC(h, i, from) (((i) + (h)->size - (from)) % (h)->size)      /* cyclic distance of byte i from byte `from` */
+#define H_REL (s != NULL && OLD(s[0]) != 0)
+void scpiheap_free(scpi_error_info_heap_t * heap, char * s, scpi_bool_t rollback)
+__CPROVER_requires(HPRE(heap) && H_HASNUL(heap) && (s == NULL || H_IN(heap, s)))
+/* ghost tie: the witness byte is some byte of the ring */
+__CPROVER_requires(H_IN(heap, gh_wp))
+__CPROVER_assigns(heap->wr, heap->count, __CPROVER_object_whole(heap->data))
+__CPROVER_ensures(heap->size == OLD(heap->size) && heap->data == OLD(heap->data))
+/* nothing to release: nothing changes */
+__CPROVER_ensures(!H_REL ==> (heap->wr == OLD(heap->wr) && heap->count == OLD(heap->count) && *gh_wp == OLD(*gh_wp)))
+/* released: between 2 and size bytes (text + terminator), all NUL afterwards, everything else untouched */
+__CPROVER_ensures(H_REL ==> (H_FREED >= 2 && H_FREED <= heap->size))
+__CPROVER_ensures((H_REL && H_CYC(heap, H_WOFF(heap), H_SOFF(heap, s)) < H_FREED) ==> *gh_wp == 0)
+__CPROVER_ensures((H_REL && H_CYC(heap, H_WOFF(heap), H_SOFF(heap, s)) >= H_FREED) ==> *gh_wp == OLD(*gh_wp))
+/* the released bytes were the text: none of them except the last was NUL before */
+__CPROVER_ensures((H_REL && H_CYC(heap, H_WOFF(heap), H_SOFF(heap, s)) + 1 < H_FREED) ==> OLD(*gh_wp) != 0)
+/* write position: back to the start once everything is free; otherwise moved back by the released amount iff asked */
+__CPROVER_ensures((H_REL && heap->count == heap->size) ==> heap->wr == 0)
+__CPROVER_ensures((H_REL && heap->count != heap->size && !rollback) ==> heap->wr == OLD(heap->wr))
+__CPROVER_ensures((H_REL && heap->count != heap->size && rollback) ==> heap->wr == (OLD(heap->wr) >= H_FREED ? OLD(heap->wr) - H_FREED : OLD(heap->wr) + heap->size - H_FREED))
+;
 #endif
